@@ -20,3 +20,33 @@ Print Assumptions renamed_order_shape.
 Theorem cmap_first_wins : forall tables u, cmap_get u (computeMegaCmap tables) = first_mapping u tables.
 Proof. exact Proofs.cmap_first_wins. Qed.
 Print Assumptions cmap_first_wins.
+
+(* ---- merging the layout tables' script / language-system / feature records (ModelLayout.v: mergeScriptRecords, mergeScripts,
+   mergeLangSyses, mergeFeatureLists, mergeFeatures): records come out strictly sorted by tag, which is what a shaper's binary
+   search relies on, and a feature tag switches on exactly the lookups the inputs gave it, in input order *)
+From FV Require C18.ModelLayout C18.ProofsLayout.
+Theorem merged_script_tags_sorted : forall l r, ModelLayout.mergeScriptRecords l = Ok r -> Sorted.StronglySorted Z.lt (map fst r).
+Proof. exact ProofsLayout.merged_script_tags_sorted. Qed.
+Print Assumptions merged_script_tags_sorted.
+
+Theorem merged_langsys_tags_sorted : forall l s, (2 <= length l)%nat -> ModelLayout.mergeScripts l = Ok s ->
+  Sorted.StronglySorted Z.lt (map fst (ModelLayout.recs s)).
+Proof. exact ProofsLayout.merged_langsys_tags_sorted. Qed.
+Print Assumptions merged_langsys_tags_sorted.
+
+Theorem merged_feature_tags_sorted : forall l m, ModelLayout.mergeLangSyses l = Ok m ->
+  Sorted.StronglySorted Z.lt (map fst (ModelLayout.feats m)).
+Proof. exact ProofsLayout.merged_feature_tags_sorted. Qed.
+Print Assumptions merged_feature_tags_sorted.
+
+Theorem merged_feature_lookups : forall ls t,
+  ProofsLayout.feat_lookups (ModelLayout.mergeFeatureLists ls) t = concat (map (fun fs => ProofsLayout.feat_lookups fs t) ls).
+Proof. exact ProofsLayout.merged_feature_lookups. Qed.
+Print Assumptions merged_feature_lookups.
+
+(* the generic fact behind all three levels: group by tag, then sort *)
+Theorem merge_tag_content : forall (lsts : list (list (Z * ModelLayout.langsys))) t,
+  ProofsLayout.assoc t (ModelLayout.merge_by_tag lsts) =
+  match ProofsLayout.tagged t (concat lsts) with [] => None | vs => Some vs end.
+Proof. exact ProofsLayout.merge_tag_content_langsys. Qed.
+Print Assumptions merge_tag_content.
